@@ -16,6 +16,7 @@ from .. import driver, extract, field, game
 from ..symrt import Ctx, active, call, explore, per_path, term
 from .computil import field_rec, scale_of
 from .predutil import rank_data_contract
+from .. import teams as T
 from . import c01
 
 PROP = "C16"
@@ -97,6 +98,8 @@ def unit_rate(model, sizes, mode, ranks, inplace=False, generic=False):
             tA, tB = per_path(teams("A")), per_path(teams("B"))
             oa = ctx.merged(lambda i: call(mA.rate, tA(i), ranks=list(ranks) if ranks else None))
             ob = ctx.merged(lambda i: call(mB.rate, tB(i), ranks=list(ranks) if ranks else None))
+        if generic:
+            T.guard(oa, ob)
     except Exception as e:  # noqa: BLE001
         from ..symrt import UncutLoop
         if generic and isinstance(e, UncutLoop):
@@ -148,6 +151,8 @@ def unit_predict(model, sizes, mode, inplace=False, generic=False):
             for op in PREDICTS:
                 tA, tB = per_path(teams("A")), per_path(teams("B"))
                 res[op] = (ctx.merged(lambda i, op=op, tA=tA: call(getattr(mA, op), tA(i))), ctx.merged(lambda i, op=op, tB=tB: call(getattr(mB, op), tB(i))))
+                if generic:
+                    T.guard(*res[op])
     except Exception as e:  # noqa: BLE001
         from ..symrt import UncutLoop
         if generic and isinstance(e, UncutLoop):
